@@ -338,6 +338,10 @@ def sim(ctx, prog, label, has_stack):
                     continue      # announced counts beyond 2^62: the saturation region, outside the argument (see module doc)
                 ctx.violation(rule, key0 + '|' + kind + '|diverge', 'the step can panic: %s' % o.why, where)
                 continue
+            opq = sorted(f_ for f_ in o.st.flags if f_.startswith('opaque:'))
+            if opq:
+                ctx.violation(rule, key0 + '|' + kind + '|opaque', 'the step goes through %s, which the analysis cannot follow (panic freedom and effect on the bookkeeping not established)' % opq[0][7:], where)
+                continue
             exited = res.startswith('Ok')
             if not exited and res != 'cut:%s' % head:
                 ctx.violation(rule, key0 + '|' + kind + '|incomplete', 'the step ends as %s' % res, where)
